@@ -46,6 +46,7 @@ func main() {
 	replay := flag.String("replay", "", "replay a violation file")
 	list := flag.Bool("list", false, "list registered properties")
 	dumpCalls := flag.String("dump-calls", "", "debug: print the call facts collected from this entry point")
+	dumpWrites := flag.String("dump-writes", "", "debug: print the input writes reachable from this entry point")
 	dumpGuards := flag.String("dump-guards", "", "debug: print the guards collected from this entry point")
 	flag.Parse()
 	// go/packages resolves "go" through this process's PATH: force the toolchain that satisfies /repo's go directive
@@ -111,6 +112,23 @@ func main() {
 		}
 		for _, cf := range cs {
 			fmt.Printf("%s  %s\n", p.Pos(cf.Pos), cf.String())
+		}
+		return
+	}
+	if *dumpWrites != "" {
+		p, err := Load(LoadConfig{Repo: *repo, GOARCH: *arch})
+		if err != nil {
+			fmt.Println("load:", err)
+			os.Exit(2)
+		}
+		ge := NewGuardEngine(p, 8)
+		fn := p.Func(*dumpWrites)
+		if fn == nil {
+			fmt.Println("entry not found")
+			os.Exit(2)
+		}
+		for _, w := range ge.InputWrites(fn) {
+			fmt.Printf("%s  %s %s  [%s]  via %s\n", p.Pos(w.Fact.Pos), w.Fact.Name, w.Target, w.Why, strings.Join(w.Fact.Chain, ">"))
 		}
 		return
 	}
